@@ -15,8 +15,18 @@ ATTRS = ["cn", "objectClass", "sAMAccountName", "1.2.3", "2.5.4.3", "cn;lang-en"
 OIDS = ["1.2.3", "1.3.6.1.4.1.1466.20037", "1.3.6.1.4.1.1466.20036", "2.16.840.1.113730.3.4.2", "1.2.3.4.5.6"]
 
 
+# text that is NOT stable under Unicode normalisation (NFC / NFKC), case mapping, SASLprep / stringprep mapping, whitespace or default-ignorable
+# stripping: decomposed sequences, compatibility characters (fullwidth, ligatures, superscripts, U+212B, U+2126), conjoining jamo, non-ASCII
+# spaces, soft hyphen, zero-width characters, dotless / dotted i, final sigma, sharp s, BOM, line separators
+UNSTABLE_TEXTS = ["cafe\u0301", "\uff50\uff41\uff53\uff53", "two\u00a0words", "soft\u00adhyphen", "zero\u200bwidth", "\ufb01sh", "x\u00b2", "\u212b", "\u2126hm",
+                  "\u1100\u1161\u11a8", "\u0130stanbul", "\u0131", "\u03a3\u03c2\u03c3", "stra\u00dfe", "\ufeffbom", "line\u2028sep", "\u3000wide space", "A\u030a",
+                  "\u1e9b\u0323", "e\u0301\u0323", " lead", "trail ", "a  b", "Tab\there", "MiXeD", "\u00c5ngstr\u00f6m"]
+
+
 def g_text(rng: random.Random) -> str:
     r = rng.random()
+    if r < 0.08:
+        return rng.choice(UNSTABLE_TEXTS)
     if r < 0.6:
         return rng.choice(TEXTS)
     n = rng.choice([0, 1, 2, 5, 20, 126, 127, 128, 129, 255, 256, 257])
